@@ -29,18 +29,15 @@ Qed.
 
 Lemma take_app n (h r : list byte) : length h = n -> take n (h ++ r) = Some (h, r).
 Proof.
-  intros <-. unfold take. rewrite app_length.
-  replace (Nat.leb (length h) (length h + length r)) with true by (symmetry; apply Nat.leb_le; lia).
-  rewrite firstn_app, firstn_all, Nat.sub_diag, app_nil_r. rewrite skipn_app, skipn_all, Nat.sub_diag.
-  reflexivity.
+  intros <-. induction h as [|b h IH]; cbn [length take app]; [reflexivity|]. rewrite IH. reflexivity.
 Qed.
 
-Lemma take_spec n bs h r : take n bs = Some (h, r) -> bs = h ++ r /\ length h = n.
+Lemma take_spec n : forall bs h r, take n bs = Some (h, r) -> bs = h ++ r /\ length h = n.
 Proof.
-  unfold take. destruct (Nat.leb n (length bs)) eqn:E; [|discriminate].
-  intros H. inversion H; subst. apply Nat.leb_le in E. split.
-  - symmetry. apply firstn_skipn.
-  - apply firstn_length_le. exact E.
+  induction n as [|n IH]; intros bs h r H; cbn [take] in H.
+  - inversion H; subst. split; reflexivity.
+  - destruct bs as [|b t]; [discriminate|]. destruct (take n t) as [[h' r']|] eqn:E; [|discriminate].
+    inversion H; subst. destruct (IH _ _ _ E) as [-> Hl]. cbn [app length]. split; [reflexivity | rewrite Hl; reflexivity].
 Qed.
 
 Lemma le_bytes_bytes n x : forallb is_byte (le_bytes n x) = true.
